@@ -624,6 +624,21 @@ fn check_positions_codec(ctx: &mut Ctx, av: &Avail, deltas: &[u32], reads: &[(us
             return;
         }
     };
+    // the stateful reader model on the whole sequence of reads (same reader object on both sides)
+    {
+        let seq: Vec<(usize, usize)> = reads.iter().cloned().filter(|(_, l)| *l > 0).collect();
+        if !seq.is_empty() {
+            let mut rd = PositionReader::open(OwnedBytes::new(real.clone())).unwrap();
+            let outs: Vec<String> = seq.iter().map(|(o, l)| { let mut out = vec![0u32; *l]; rd.read(*o as u64, &mut out); nat_list(&out) }).collect();
+            let m = ctx.model.ask(&format!("C07 pos_reads {} {}", hex(&real), seq.iter().map(|(o, l)| format!("{o}:{l}")).collect::<Vec<_>>().join(",")));
+            ctx.report.count("codec:pos-reads-stateful");
+            if m == "bad-op" {
+                ctx.report.violation("model", "C07:model-unavailable", "the Lean driver answers bad-op for pos_reads".into(), json!({"kind": "probe"}));
+            } else if m != outs.join("|") {
+                ctx.report.violation("model", "C07:model-position-reader", format!("stateful PositionReader on {n} deltas, reads {:?}: real {} model {}", seq, short(&outs.join("|")), short(&m)), case.clone());
+            }
+        }
+    }
     for (off, len) in reads {
         ctx.report.count("codec:pos-read");
         let mut out = vec![0u32; *len];
@@ -936,6 +951,20 @@ fn check_field(
             ctx.report.violation("oracle", k("C07:term-order"), format!("field {}: term stream not strictly increasing: {} then {}", spec.name, hex(&w[0].0), hex(&w[1].0)), cj(&w[1].0));
         }
     }
+    // the FieldSerializer layout (model `FieldSerializer.writeTerms`): ranges start at 0 and are back to back
+    {
+        let mut p = 0usize;
+        let mut q = 0usize;
+        for (t, ti) in &terms {
+            if ti.postings_range.start != p || ti.positions_range.start != q || ti.postings_range.end < p || ti.positions_range.end < q {
+                ctx.report.violation("model", "C07:model-terminfo-layout", format!("field {}: TermInfo of {} is postings {:?} positions {:?}, the layout model expects them to start at {p} / {q}", spec.name, short(&hex(t)), ti.postings_range, ti.positions_range), cj(t));
+                break;
+            }
+            p = ti.postings_range.end;
+            q = ti.positions_range.end;
+        }
+        ctx.report.count("terminfo-layout-checked");
+    }
     let got_set: BTreeSet<&Vec<u8>> = terms.iter().map(|t| &t.0).collect();
     let want_set: BTreeSet<&Vec<u8>> = exp.map.keys().collect();
     if got_set != want_set {
@@ -1102,6 +1131,29 @@ fn check_field(
         }
     }
 
+    // model: JSON fields (per-path position bookkeeping)
+    if is_json && exp.total_tokens <= 4000 {
+        let docs: Vec<String> = exp.json_events.iter().map(|evs| evs.join("/")).collect();
+        let ct = if docs.is_empty() { "-".to_string() } else { docs.join(";") };
+        let req = if ct.is_empty() { format!("C07 invert_json {}", spec.opt.name()) } else { format!("C07 invert_json {} {ct}", spec.opt.name()) };
+        let resp = ctx.model.ask(&req);
+        if resp == "bad-op" {
+            ctx.report.violation("model", "C07:model-unavailable", "the Lean driver answers bad-op for invert_json".into(), cj(&[]));
+        } else {
+            ctx.report.count("model:invert-json-requests");
+            let parts: Vec<&str> = resp.split('|').collect();
+            let entries: Vec<String> = readback.iter().map(|(t, l)| format!("{}={}", hex(t), postings_text(l))).collect();
+            let real_terms = if entries.is_empty() { "-".to_string() } else { entries.join(";") };
+            if parts.len() != 2 || parts[0] != real_terms {
+                let m: Vec<&str> = parts.first().map(|p| p.split(';').collect()).unwrap_or_default();
+                let i = (0..m.len().max(entries.len())).find(|i| m.get(*i).copied() != entries.get(*i).map(|s| s.as_str())).unwrap_or(0);
+                let t = readback.get(i).map(|r| r.0.clone()).unwrap_or_default();
+                ctx.report.violation("model", "C07:model-invert-json", format!("JSON field {} ({}): entry {i} of {}: read-back {:?} model {:?}", spec.name, spec.opt.name(), entries.len(), entries.get(i).map(|s| short(s)), m.get(i).map(|s| short(s))), cj(&t));
+            } else if parts[1] != inv.total_num_tokens().to_string() {
+                ctx.report.violation("model", "C07:model-invert-json", format!("JSON field {}: total_num_tokens real {} model {}", spec.name, inv.total_num_tokens(), parts[1]), cj(&[]));
+            }
+        }
+    }
     // model
     if let Some(corpus) = corpus {
         if !av.has("invert") {
@@ -1124,6 +1176,18 @@ fn check_field(
                     ctx.report.count("model:pipeline-requests");
                     if presp != resp {
                         ctx.report.violation("model", "C07:model-pipeline", format!("field {} ({}, {}): modelled pipeline {} differs from invert {}", spec.name, spec.kind.name(), spec.opt.name(), short(&presp), short(&resp)), cj(&[]));
+                    }
+                }
+                // C07_segment_end_to_end: the TermInfos the modelled serialize_postings lays out are the real ones
+                let sresp = ctx.model.ask(&req.replacen("C07 invert", "C07 segment", 1));
+                if sresp == "bad-op" {
+                    ctx.report.violation("model", "C07:model-unavailable", "the Lean driver answers bad-op for segment".into(), cj(&[]));
+                } else {
+                    ctx.report.count("model:segment-requests");
+                    let real_tis: Vec<String> = terms.iter().map(|(_, ti)| format!("{}:{}:{}:{}:{}", ti.doc_freq, ti.postings_range.start, ti.postings_range.end, ti.positions_range.start, ti.positions_range.end)).collect();
+                    let real_tis = if real_tis.is_empty() { "-".to_string() } else { real_tis.join(";") };
+                    if sresp != real_tis {
+                        ctx.report.violation("model", "C07:model-segment-terminfos", format!("field {} ({}, {}): TermInfos of the segment {} model {}", spec.name, spec.kind.name(), spec.opt.name(), short(&real_tis), short(&sresp)), cj(&[]));
                     }
                 }
             }
@@ -1265,6 +1329,9 @@ pub fn run(ctx: &mut Ctx) {
         "model `seek` = real SegmentPostings driven by the same program on the real bytes".into(),
         "model `pos_enc` bytes = PositionSerializer bytes; model `pos_read` = PositionReader::read".into(),
         "model `blocksearch` = postings::search_block = number of elements < target".into(),
+        "TermInfos of every field: ranges start at 0 and are back to back (model FieldSerializer.writeTerms)".into(),
+        "JSON fields: read-back = model `invert_json` on the leaf events (per-path position bookkeeping)".into(),
+        "stateful PositionReader on read sequences = model `pos_reads`".into(),
     ];
     ctx.report.correspondence_obligations.extend(crate::c07_more::obligations());
     let av = probe(ctx);
